@@ -9,7 +9,7 @@ from ..core import AnalysisError, FuncInfo, Report, call_name, dotted, unparse
 from ..ctx import Ctx
 from ..effects import (MUTATING_CONTAINER_CALLS, mutating_closure,
                        primary_mutators)
-from .util import actual, calls_in, enclosing, forwards, kw
+from .util import cguards, is_param, loopvar_over, actual, calls_in, enclosing, forwards, kw
 
 EXPLANATION = (
     "Chunked learning equals one-shot learning at the level of the model if "
@@ -81,8 +81,10 @@ def r41(rep: Report, ctx: Ctx) -> None:
               and s.targets[0].attr == flag
               and isinstance(s.value, ast.Constant) and s.value.value is False]
     ret = [s for s in getter.node.body if isinstance(s, ast.Return)]
+    rv = ctx.reach(getter).resolve(ret[0].value, at=ret[0]) if len(
+        ret) == 1 and ret[0].value is not None else None
     ok = bool(clears) and not i.orelse and len(ret) == 1 and isinstance(
-        ret[0].value, ast.Attribute) and ret[0].value.attr == cache
+        rv, ast.Attribute) and rv.attr == cache
     rep.ob("R4.1", "the getter recomputes iff stale and returns the cache",
            ok, fi=getter, node=i,
            detail=f"if self.{flag}: self.{cache} = f(self.{state}); "
@@ -257,9 +259,12 @@ def r42(rep: Report, ctx: Ctx) -> None:
             rep.ob("R4.2", f"reader: {fld} restores each type with its "
                    "multiplicity", ok, fi=r, node=comps[0] if comps else loop,
                    detail="[s.eventType for s in set for _ in range(s.count)]")
+    rret = [x for x in ast.walk(r.node) if isinstance(x, ast.Return)
+            and isinstance(x.value, ast.Name)]
+    rname = rret[-1].value.id if rret else "events"  # the returned dict
     store = [s for s in ast.walk(r.node) if isinstance(s, ast.Assign)
              and isinstance(s.targets[0], ast.Subscript)
-             and unparse(s.targets[0].value) == "events"]
+             and unparse(s.targets[0].value) == rname]
     ok = len(store) == 1 and unparse(store[0].targets[0].slice).endswith(
         ".eventType")
     ev = [c for c in ast.walk(r.node) if isinstance(c, ast.Call)
@@ -274,7 +279,8 @@ def r42(rep: Report, ctx: Ctx) -> None:
     val = [c for c in ast.walk(ld.node) if isinstance(c, ast.Call)
            and call_name(c) == "model_validate"
            and "EventInputsFile" in unparse(c.func)]
-    k = {x.arg: unparse(x.value) for x in mk[0].keywords} if mk else {}
+    k = {x.arg: unparse(ctx.reach(sv).resolve_deep(x.value, at=mk[0]))
+         for x in mk[0].keywords} if mk else {}
     ok = bool(mk) and bool(val) and set(k) == set(
         _fields(ctx, "EventInputsFile")) and k.get("job_name") == "job_name" \
         and k.get("events") == "events_to_event_inputs(events)"
@@ -282,10 +288,11 @@ def r42(rep: Report, ctx: Ctx) -> None:
            node=mk[0] if mk else sv.node,
            detail=f"EventInputsFile({k}) / EventInputsFile.model_validate")
     ret = [x for x in ast.walk(ld.node) if isinstance(x, ast.Return)]
-    ok = len(ret) == 1 and isinstance(ret[0].value, ast.Tuple) and unparse(
-        ret[0].value.elts[0]).endswith(".job_name") and "events" in unparse(
-        ret[0].value.elts[1]) and call_name(ret[0].value.elts[1]) == \
-        "event_inputs_to_events"
+    rv2 = ctx.reach(ld).resolve(ret[0].value, at=ret[0]) if len(ret) == 1 \
+        and ret[0].value is not None else None
+    ok = isinstance(rv2, ast.Tuple) and len(rv2.elts) == 2 and unparse(
+        rv2.elts[0]).endswith(".job_name") and "events" in unparse(
+        rv2.elts[1]) and call_name(rv2.elts[1]) == "event_inputs_to_events"
     rep.ob("R4.2", "load returns (job_name, events) of the file", ok, fi=ld,
            node=ret[0] if ret else ld.node,
            detail=unparse(ret[0].value)[:100] if ret else "<missing>")
@@ -320,17 +327,29 @@ def r43(rep: Report, ctx: Ctx) -> None:
         adds = [c for c in ast.walk(f.node) if isinstance(c, ast.Call)
                 and call_name(c) == "add"
                 and unparse(c.func.value) == f"self.{attr}"]
-        ok = len(adds) == 1 and isinstance(adds[0].args[0], ast.Call) and \
-            call_name(adds[0].args[0]) == "EventSet" and unparse(
-                adds[0].args[0].args[0]) == f.params()[1] and not enclosing(
+        a0 = ctx.reach(f).resolve(adds[0].args[0], at=adds[0]) if len(
+            adds) == 1 else None
+        ok = len(adds) == 1 and isinstance(a0, ast.Call) and \
+            call_name(a0) == "EventSet" and unparse(ctx.reach(f).resolve(
+                a0.args[0], at=adds[0])) == f.params()[1] and not enclosing(
                 f.node, adds[0], (ast.If, ast.For))
         rep.ob("R4.3", f"{f.name}: self.{attr}.add(EventSet(events))", ok,
                fi=f, node=adds[0] if adds else f.node,
                detail="idempotent, order-free accumulation")
     key = ctx.func("EventSet.__key")
     h, e = ctx.func("EventSet.__hash__"), ctx.func("EventSet.__eq__")
-    ksrc = unparse(key.node)
-    ok = "sorted(self)" in ksrc and "self[k]" in ksrc
+    ok = False
+    for comp in [n for n in ast.walk(key.node) if isinstance(
+            n, (ast.GeneratorExp, ast.ListComp))]:
+        g = comp.generators[0]
+        if isinstance(g.iter, ast.Call) and dotted(g.iter.func) == "sorted" \
+                and isinstance(g.target, ast.Name) and isinstance(
+                    comp.elt, ast.Tuple):
+            kv = g.target.id
+            src = unparse(g.iter.args[0]) if g.iter.args else ""
+            elts = [unparse(x) for x in comp.elt.elts]
+            ok = src in ("self", "self.keys()", "self.items()") and (
+                elts == [kv, f"self[{kv}]"] or src == "self.items()")
     rep.ob("R4.3", "the value key is order-insensitive and includes counts",
            ok, fi=key, node=key.node,
            detail="tuple((k, self[k]) for k in sorted(self))")
@@ -362,10 +381,16 @@ def r44(rep: Report, ctx: Ctx) -> None:
          ctx.func("update_and_create_events_from_graph_solution"),
          "events", "events"),
     ]
+    top_model: Optional[str] = None
     for caller, callee, param, want in chain:
         calls = calls_in(ctx, caller, callee)
         a = actual(calls[0], callee, param) if calls else None
-        ok = isinstance(a, ast.Name) and a.id == want
+        if caller is top:
+            # a local of the top function: identified by what is passed down
+            ok = isinstance(a, ast.Name)
+            top_model = a.id if ok else None
+        else:
+            ok = isinstance(a, ast.Name) and a.id == want
         rep.ob("R4.4", f"{caller.short} -> {callee.short}({param})", ok,
                fi=caller, node=calls[0] if calls else caller.node,
                detail=f"{param}={unparse(a)}")
@@ -403,26 +428,36 @@ def r44(rep: Report, ctx: Ctx) -> None:
            node=ret[0] if ret else mid.node, detail="return events")
     # top: the dict passed down is the dict saved
     defs = ctx.defs(top)
-    sv = calls_in(ctx, top, ctx.func("save_events_to_file"))
-    a = actual(sv[0], ctx.func("save_events_to_file"), "events") if sv else None
-    ok = isinstance(a, ast.Name) and a.id == "events"
+    saver = ctx.func("save_events_to_file")
+    sv = calls_in(ctx, top, saver)
+    a = actual(sv[0], saver, "events") if sv else None
+    ok = isinstance(a, ast.Name) and a.id == top_model
     rep.ob("R4.4", "the saved dictionary is the one handed to the learner",
            ok, fi=top, node=sv[0] if sv else top.node,
-           detail=f"save_events_to_file(..., {unparse(a)}, ...)")
-    binds = [b for b in defs.of("events") if b.kind == "assign"]
+           detail=f"save_events_to_file(..., {unparse(a)}, ...); the learner "
+                  f"received '{top_model}'")
+    binds = [b for b in defs.of(top_model or "") if b.kind == "assign"]
+    wf = None      # the workflow name: element 0 of the loop over the streams
+    for b in binds:
+        v = b.value
+        if isinstance(v, ast.Subscript) and isinstance(v.value, ast.Name) \
+                and v.value.id == "events_to_jobs_map" and loopvar_over(
+                    defs, v.slice, is_param("pv_streams"), index=0):
+            wf = v.slice.id  # type: ignore[attr-defined]
     ok = len(binds) == 2 and any(isinstance(b.value, ast.Dict)
-                                 and not b.value.keys for b in binds) and any(
-        unparse(b.value) == "events_to_jobs_map[job_name]" for b in binds)
+                                 and not b.value.keys for b in binds) \
+        and wf is not None
     rep.ob("R4.4", "per workflow: the loaded model or a fresh dict", ok,
            fi=top, node=binds[0].stmt if binds else top.node,
            detail="; ".join(unparse(b.stmt)[:50] for b in binds))
     if sv:
-        g = enclosing(top.node, sv[0], (ast.If,))
-        ok = len(g) == 1 and unparse(g[0].test) == "save_models"
-        nm = actual(sv[0], ctx.func("save_events_to_file"), "job_name")
-        rep.ob("R4.4", "-om saves under the workflow's name", ok and unparse(
-            nm) == "job_name", fi=top, node=sv[0],
-            detail=f"if save_models: save_events_to_file({unparse(nm)}, ...)")
+        gs = cguards(ctx, top, sv[0])
+        ok = gs == [("truth", "save_models", "1")]
+        nm = actual(sv[0], saver, "job_name")
+        rep.ob("R4.4", "-om saves under the workflow's name", ok and
+               isinstance(nm, ast.Name) and nm.id == wf, fi=top, node=sv[0],
+               detail=f"if save_models: save_events_to_file({unparse(nm)}, "
+                      f"...); models are looked up under '{wf}'")
 
 
 # --------------------------------------------------------------------------
@@ -554,8 +589,12 @@ def r46(rep: Report, ctx: Ctx) -> None:
     mh = ctx.func("main_handler")
     c = [x for x in ast.walk(mh.node) if isinstance(x, ast.Call)
          and call_name(x) == "otel_to_puml"]
-    ok = len(c) == 1 and len(c[0].args) >= 3 and unparse(
-        c[0].args[2]) == "options.global_options"
+    disp_fi = ctx.func("otel_to_puml")
+    ga_ = actual(c[0], disp_fi, "global_options") if len(c) == 1 else None
+    ga_ = ctx.reach(mh).resolve(ga_, at=c[0]) if ga_ is not None else None
+    ok = isinstance(ga_, ast.Attribute) and ga_.attr == "global_options" \
+        and isinstance(ctx.reach(mh).resolve(ga_.value, at=c[0]), ast.Call) \
+        and call_name(ctx.reach(mh).resolve(ga_.value, at=c[0])) == gen.name
     rep.ob("R4.6", "CLI: global options are passed to the dispatcher", ok,
            fi=mh, node=c[0] if c else mh.node,
            detail=unparse(c[0])[:120] if c else "<missing>")
